@@ -1,6 +1,6 @@
 CONSTANTS Variant = "std"
-CONSTANT DeclOpts <- DeclFull
-CONSTANT AttrOpts <- AttrFull
+CONSTANT DeclOpts <- DeclAlt
+CONSTANT AttrOpts <- AttrAlt
 SPECIFICATION Spec
 INVARIANTS Export
 CHECK_DEADLOCK FALSE
